@@ -13,6 +13,7 @@ Variable score_fn : V -> scored Sc.
 Variable populate : A -> list trial -> bool -> tid -> A * status * V.
 Variable hook_end hook_end_abort : A -> tid -> V -> A.
 Variable hook_reload : A -> A.
+Variable reissue : V -> V.
 Notation ost := (@ostate A V Sc).
 
 (* oracle.json *)
@@ -72,7 +73,7 @@ Fixpoint all_writes (c : cfg) (s : ost) (ops : list (@op V)) : list write :=
   match ops with
   | [] => []
   | o :: rest =>
-      let '(s', r) := step vdef score_fn populate hook_end hook_end_abort hook_reload c s o in
+      let '(s', r) := step vdef score_fn populate hook_end hook_end_abort hook_reload reissue c s o in
       writes_of c s o s' r ++ all_writes c s' rest
   end.
 
